@@ -106,7 +106,7 @@ RUNS_QUICK = {
  "C10": {"plain": 130000, "san": 5800},
  "C11": {"plain": 87000, "san": 4200},
  "C12": {"plain": 170000, "san": 6800},
- "C13": {"plain": 9000, "san": 600},
+ "C13": {"plain": 9000, "san": 400},
  "C14": {"plain": 170000, "san": 6400},
  "C15": {"plain": 160000, "san": 6500},
  "C17": {"plain": 19000, "san": 1000},
